@@ -1104,10 +1104,11 @@ func ruleTX4(c *Ctx) []Ob {
 			switch {
 			case e.kind == "r":
 				o.add(OK, key, pos, "read-only transaction")
-			case commitAt == "":
-				o.add(OK, key, pos, "opened for update, but no Commit is reachable from DB.%s: every change is rolled back", name)
-			case writes == 0:
-				o.add(OK, key, pos, "opened for update and possibly committed, but nothing reachable from DB.%s writes to the store: the commit is empty", name)
+			case commitAt == "" || writes == 0:
+				// it cannot change the database - but an update transaction is the store's writer slot: on bbolt
+				// the read operation queues behind every writer, and called while the same goroutine holds the
+				// writer slot (from an updater) it never returns, where the same history completes on badger
+				o.add(VIOLATED, key, pos, "read operation DB.%s opens an update transaction although it writes nothing: on bbolt it takes the single writer lock (it waits for every writer, and never returns when called from inside a write operation's callback, while badger answers), where a read-only transaction gives the same result on both backends", name)
 			default:
 				o.add(VIOLATED, key, pos, "read operation DB.%s opens an update transaction and %s commits", name, commitAt)
 			}
